@@ -374,6 +374,42 @@ def check_envelope(ctx, label, data):
     return True
 
 
+FOLLOWERS = [b'\xce' + b'a' * 300]
+
+
+def check_followers(ctx, label, data):
+    """A buffer that holds exactly the one frame its header announces -
+    well-formed or not inside - gives the same outcome (the same frame, or
+    the same kind of refusal) whatever follows it in the receive buffer: the
+    decoder has no business beyond the bytes it reports as consumed."""
+    if len(data) < 8 or len(data) > 4096 or data[:4] == b'AMQP':
+        return
+    size = struct.unpack('>I', data[3:7])[0]
+    if size + 8 != len(data):
+        return
+    alone = lib.unmarshal_outcome(data)
+    ctx.calls()
+
+    def view(out):
+        if out[0] != 'ok':
+            return ('refused', type(out[1]).__name__)
+        return ('frame', out[1], out[2], repr(lib.frame_summary(out[3])))
+    want = view(alone)
+    for t in FOLLOWERS + [data]:
+        got = view(lib.unmarshal_outcome(data + t))
+        ctx.calls()
+        if got != want:
+            ctx.outcome('depends-on-what-follows')
+            ctx.violation('follow|' + data.hex()[:400],
+                          '{}: alone in the buffer it gives {}, followed by '
+                          '{} it gives {} ({})'.format(
+                              label, short(want, 160), t[:12].hex(),
+                              short(got, 160), data.hex()[:100]),
+                          {'kind': 'follow', 'hex': data.hex(),
+                           'label': label}, short(want, 300), short(got, 300))
+            return
+
+
 def run(task, ctx):
     kind = task[0]
     if kind == 'seq':
@@ -409,9 +445,17 @@ def run(task, ctx):
                     break
                 continue
             ctx.case(data, decoded)
+            try:
+                check_followers(ctx, label, data)
+            except runner.Hang:
+                ctx.rearm(4)
 
 
 def replay(case, ctx):
+    if case.get('kind') == 'follow':
+        check_followers(ctx, case.get('label', ''),
+                        bytes.fromhex(case['hex']))
+        return
     kind = case['kind']
     if kind == 'seq':
         kseq()
